@@ -189,6 +189,15 @@ func (c *Ctx) mergeStates(ins []*State) *State {
 				if !ok {
 					if strings.HasPrefix(k, "result:") {
 						v = c.fresh("ghostres", SInt)
+					} else if strings.HasPrefix(k, "res:") {
+						// positional result record: unknown where the call did not happen
+						srt := SBool
+						for _, s2 := range ins {
+							if v2, ok2 := s2.Ghost[k]; ok2 {
+								srt = v2.Sort
+							}
+						}
+						v = c.fresh("ghostres", srt)
 					} else {
 						v = TFalse
 						if s.GhostUnknown {
